@@ -109,7 +109,7 @@ def op_field_new(st, o):
     if mapping is None:
         mapping = default_mapping(nvdim, vdims, mh.box.v.region.dims)
     fm = FieldM(nvdim, arr, valid.astype(bool), vdims, mapping, o.get("unit"))
-    st.add("F", obj, mh.box, fm, slot=o["out"])  # the field lives on the pool mesh: shared Box
+    st.add("F", obj, mh.box, fm, slot=o["out"], meta={"dtype": o.get("dtype")})  # the field lives on the pool mesh: shared Box
     if len(st.sharers(mh.box)) > 1:
         st.stats.probe("shared_mesh")
 
